@@ -28,6 +28,7 @@ EVENTS = [(h, s) for h in STRINGS for s in SCORES]
 BOUNDS = {'quick': dict(depth=3), 'thorough': dict(depth=4)}
 BOUNDS['replay'] = BOUNDS['quick']
 EPS = 1e-9
+START = []
 
 
 def setup(tier):
@@ -219,13 +220,19 @@ def check_case(case, ctx):
     if case.get('boh'):
         return check_boh(ctx)
     hist = [EVENTS[i] for i in case['hist']]
-    cn = []
+    cn = START                      # every network is started from the SAME empty list object; it has to stay empty
     for h, s in hist[:-1]:
         cn = add_hypothese(cn, h, s)
     before = copy.deepcopy(cn)
     h, s = hist[-1]
     after = add_hypothese(cn, h, s)
     ctx.executed(len(hist))
+    if START:
+        leaked = list(START)
+        del START[:]
+        ctx.violation('single-hypothesis-reads-back', f'{ID}/add/empty-start-network-modified-in-place',
+                      f'history {hist}: the empty list passed as the start network now holds {leaked}; the next network built from it inherits that')
+        return
     ctx.state(canon(after))
     desc = f'history {hist}: before={before} after={after}'
 
